@@ -2289,6 +2289,7 @@ def normalize_module(tree: ast.Module, extern=None) -> ast.Module:
     n2.redispatch_loops(tree)
     n2.comprehension_calls_to_loops(tree)
     n2.predicate_loops(tree)
+    n2.predicate_guards(tree)
     n2.inline_search_helpers(tree)
     n2.inline_loop_helpers(tree)
     n2.closure_forms(tree)
@@ -2349,6 +2350,7 @@ def normalize_module(tree: ast.Module, extern=None) -> ast.Module:
             n2.incremental_dicts(n)
             n2.single_use_dicts(n)
             n2.scalarise_local_dicts(n)
+            n2.first_match_loops(n)
     if getattr(tree, "_ft", None) is not None:
         # (a table key that became a literal once a helper was in place)
         ft_ = tree._ft
